@@ -89,6 +89,19 @@ CLAIMED["C19"] = dict(
     ref="DESIGN.md 4/C19",
 )
 
+CLAIMED["C15"] = dict(
+    technique="table agreement across four sibling places: encoder option tables (partial keyword arguments), vc2_data_tables namedtuple field order (from its source), the decoder's preset_* assignments, bitstream fixeddict entries and the serdes description program; level keys compared with the validator's assert_level_constraint calls per syntax function; structure of the yielded dictionaries",
+    text="Decoded-equals-requested is behaviour. Decided for all ten option tables and the colour-spec generator: preset tuples are matched against the values the decoder would load from them (a numerator/denominator swap in any of the three places is a violation), every key names a declared entry of the right dictionary, each dictionary is the one whose flag the description program reads, level keys equal the validator's for that field, and emitted dictionaries copy the requested values.",
+    note="Trusted: vc2_data_tables source; serdes model. Value-level equality is not decided.",
+    ref="DESIGN.md 4/C15",
+)
+CLAIMED["C16"] = dict(
+    technique="key-coverage set comparison between all 57 validator level-constraint sites (= CSV rows) and the keys the encoder consults; dominance of membership tests over each yielded option dictionary; order of table filtering",
+    text="Acceptance under arbitrary level tables is behaviour. Decided: which validator-enforced keys the encoder never consults (each is a table under which the encoder succeeds and the validator rejects), that every emitted header option is dominated by membership tests of the values it carries, and that the table is filtered by the known values before columns are tried. Known finding K3: eight keys are never consulted (four demonstrated).",
+    note="Trusted: CSV row names. Arithmetic value selection (slice sizes, qindex) is not tracked beyond key coverage.",
+    ref="DESIGN.md 4/C16",
+)
+
 NOT_APPLICABLE = {
     "C12": "arithmetic over unbounded integers (quantisation error bounds, monotonicity of a rational formula): no structural clause; needs algebra/solver or execution",
     "C13": "partition/telescoping identities of floor arithmetic on runtime sizes; the functions are spec-pinned arithmetic with nothing to decide from code shape",
